@@ -451,6 +451,25 @@ fn fixed_cases(tier: Tier) -> Vec<Case> {
         v.push(Case::new("large", 240, 216, (0..240 * 216).map(|i| PAL2[(i / 7 + i / 216) % 2]).collect()));
     }
     v.push(Case::new("large", 216, 240, (0..240 * 216).map(|i| PAL3[(i / 5 + i / 240) % 3]).collect()));
+    // wider than 65536 columns (structure only: beyond the sub-sampling threshold)
+    let w = 65_600usize;
+    v.push(Case::new("very-wide", 6, w, (0..6 * w).map(|i| PAL2[((i % w) >= 65_540) as usize]).collect()));
+    // rows cut off by the truncation to a multiple of six hold colours of their own: the visible
+    // rows have exactly 256 colours (exact reproduction is promised), all rows together 576
+    v.push(Case::new(
+        "hidden-rows-colours",
+        11,
+        64,
+        (0..11 * 64)
+            .map(|i| if i < 6 * 64 { unique_colour(i % 256) } else { unique_colour(300 + (i - 6 * 64)) })
+            .collect(),
+    ));
+    v.push(Case::new(
+        "hidden-rows-colours",
+        7,
+        300,
+        (0..7 * 300).map(|i| if i < 6 * 300 { unique_colour(i % 200) } else { unique_colour(260 + (i - 6 * 300)) }).collect(),
+    ));
     v
 }
 
